@@ -140,13 +140,15 @@ def run(chk, pid, tier, seed, replay):
     except Exception as e: print(f"HARNESS-FAULT property={pid}: kernel differential produced no result ({e}) {r.stderr[-400:]}"); return 2
     for f in kres.get("known_findings", []) if isinstance(kres.get("known_findings"), list) else []:
         print(f"KNOWN-FINDING: property={pid} {f}")
+    if kres.get("abi_known_line"): print(f"KNOWN-FINDING: property={pid} {kres['abi_known_line']}")
+    if kres.get("abi_known_not_reproduced"): print(f"NOTE: declared ABI finding no longer reproduces for {kres['abi_known_not_reproduced']}")
     if kres.get("status") == "violation":
         print(f"VIOLATION property={pid} replay={kres.get('replay')}"); print("  " + str(kres.get("message"))[:500])
         chk.write_evidence(pid, tier, seed, time.time() - t0, {"evaluations": max(1, kres.get("evaluations", 1)), "distinct_nontrivial": kres.get("distinct_nontrivial", 0), "rule": "kernel differential stopped at a mismatch", "samples": [str(kres.get("message"))[:500]]}, 1, ASSUME)
         return 1
     if kres.get("status") != "ok":
         print(f"HARNESS-FAULT property={pid}: kernel differential: {kres.get('status')} {str(kres.get('message'))[:400]} not_assembled={kres.get('not_assembled')}"); return 2
-    cov["layers"]["kernel_differential"] = {k: kres.get(k) for k in ("evaluations", "distinct_nontrivial", "kernels_assembled", "kernels_tested", "entry_points", "not_assembled", "no_reference", "skipped_sigill", "labels", "known_findings", "known_findings_not_reproduced")}
+    cov["layers"]["kernel_differential"] = {k: kres.get(k) for k in ("evaluations", "distinct_nontrivial", "kernels_assembled", "kernels_tested", "entry_points", "not_assembled", "no_reference", "skipped_sigill", "labels", "known_findings", "known_findings_not_reproduced", "abi_pass_calls", "abi_known_reproduced", "abi_known_not_reproduced")}
     total_eval += kres["evaluations"]; total_distinct += kres["distinct_nontrivial"]; samples += kres.get("samples", [])[:4]
     # ---- layers 2 and 3 ---------------------------------------------------------------------------------
     tabs = tables(chk.REPO)
